@@ -37,6 +37,10 @@ class Abort(Exception):
     pass
 
 
+class SplitPoint(Exception):
+    """Raised at the exploration frontier when only decision-tree prefixes are being enumerated."""
+
+
 class Stats:
     def __init__(self):
         self.queries = 0
@@ -102,6 +106,7 @@ class Explorer:
         self.depth = 0
         self.sym_counter = 0
         self.visit_count: Dict[Tuple[int, str, str], int] = {}
+        self.split_depth: Optional[int] = None
 
     # ------------------------------------------------------------------ solver
     def check(self, *extra, important=False) -> str:
@@ -156,6 +161,8 @@ class Explorer:
             self.pc.append(simp[i])
             self.solver.add(simp[i])
             return i
+        if self.split_depth is not None and len(self.trail) >= self.split_depth:
+            raise SplitPoint()
         feas = []
         for i in live:
             if z3.is_true(simp[i]):
@@ -188,9 +195,16 @@ class Explorer:
         return self.choose([v == i for i in range(n - 1)] + [z3.UGE(v, n - 1)])
 
     # ------------------------------------------------------------------ driver
-    def run(self, entry: Callable[['Explorer'], Any], on_path: Callable[['Explorer', Any, str], None]):
-        """Enumerate all paths. `on_path(ex, result, status)`; status in ok|panic|cut."""
-        self.trail = []
+    def run(self, entry: Callable[['Explorer'], Any], on_path: Callable[['Explorer', Any, str], None],
+            prefix: Optional[List[List[Any]]] = None, split_depth: Optional[int] = None,
+            on_split: Optional[Callable[[List[List[Any]]], None]] = None):
+        """Enumerate all paths. `on_path(ex, result, status)`; status in ok|panic|cut.
+
+        `prefix` (a trail prefix from `enumerate_prefixes`) restricts the run to the subtree below it;
+        `split_depth` stops at that decision depth and reports the trail prefixes instead (work splitting)."""
+        self.trail = [list(t) for t in prefix] if prefix else []
+        frozen = len(self.trail)
+        self.split_depth = split_depth
         npaths = 0
         while True:
             self.smt.reset()
@@ -217,6 +231,10 @@ class Explorer:
             except Unwinding as u:
                 status = 'panic'
                 result = u.payload
+            except SplitPoint:
+                status = 'infeasible'
+                if on_split is not None:
+                    on_split([[t[0], list(t[1])] for t in self.trail])
             if status != 'infeasible':
                 npaths += 1
                 self.stats.paths += 1
@@ -224,11 +242,20 @@ class Explorer:
             if npaths > self.max_paths:
                 raise Unsupported('path budget exceeded (%d)' % self.max_paths)
             # backtrack
-            while self.trail and self.trail[-1][0] + 1 >= len(self.trail[-1][1]):
+            while len(self.trail) > frozen and self.trail[-1][0] + 1 >= len(self.trail[-1][1]):
                 self.trail.pop()
-            if not self.trail:
+            if len(self.trail) <= frozen:
                 break
             self.trail[-1][0] += 1
+        self.split_depth = None
+
+    def enumerate_prefixes(self, entry, depth: int):
+        """Trail prefixes of length `depth` (plus complete shorter paths) that partition the path space."""
+        out = []
+        done = []
+        self.run(entry, lambda ex, r, st: done.append([[t[0], list(t[1])] for t in ex.trail]), split_depth=depth,
+                 on_split=lambda tr: out.append(tr))
+        return out, done
 
     # ------------------------------------------------------------------ memory helpers
     def load(self, ref: Ref):
